@@ -239,6 +239,13 @@ def run(ctx):
                           replay=dict(method=method, adjoint_method=adj))
         if n_back == 0:
             ctx.drift(f"adjoint {method}/{adj}: no forward interval was re-asked during backward (check is idle)")
+    # ---- traces harvested from the repository's own test-suite (DESIGN 4.2 (ii)): every Brownian object a test
+    # creates is validated against TraceBrownian (RefineOnly, NoSameSpanChild, Repeat) and the bit-identity of
+    # re-asked queries is monitored on every call
+    from harness import harvest_run
+    harvest_run.harvest(ctx, "brownian_quick" if quick else "brownian", ["brownian"], workers=8 if quick else 16)
+    if not quick:
+        harvest_run.harvest(ctx, "sdeint_quick", ["brownian"], selftest=False)
     ctx.exhaustive = False
 
 
